@@ -154,6 +154,12 @@ func TestVerif_C02(t *testing.T) {
 		if d := env.Int("depth", 0); d > 0 {
 			cfg.Depth = d
 		}
+		if n := env.Int("clients", 0); n > 0 {
+			cfg.NClients = n
+		}
+		if n := env.Int("ops", 0); n > 0 {
+			cfg.OpsPer = n
+		}
 		b := &bsSearch{cfg: cfg, res: res, env: env, every: c02Every(res), drained: c02Drained(res)}
 		b.run()
 		res.Bounds["cfg"] = cfg.Name
